@@ -18,11 +18,11 @@ SHIM = C.VERIF / "harness" / "fi_shim.so"
 
 def run_gen(spec: dict, trace_path: Path, *, kill_at: int | None = None, shim_kill: int | None = None,
             shim_log: Path | None = None, watch: str | None = None, timeout: int = 900,
-            n_devices: int = 1):
+            n_devices: int = 1, maxarr: int = 0):
     """One OS process generation.  Returns (returncode, stderr tail)."""
     spec_path = trace_path.with_suffix(".spec.json")
     spec_path.write_text(json.dumps(spec))
-    extra = {"MDPAX_VERIF_TRACE": str(trace_path), "MDPAX_VERIF_MAXARR": "0"}
+    extra = {"MDPAX_VERIF_TRACE": str(trace_path), "MDPAX_VERIF_MAXARR": str(maxarr)}
     if kill_at is not None:
         extra["MDPAX_VERIF_KILL_AT"] = str(kill_at)
     if shim_kill is not None or shim_log is not None:
@@ -72,11 +72,23 @@ def scalar_sha(enc):
     return str(enc)
 
 
+def array_of(enc):
+    """Decode an encoded float array that was logged in full (hex list); None otherwise."""
+    if isinstance(enc, dict) and "hex" in enc:
+        import numpy as np
+        return np.array([float.fromhex(x) for x in enc["hex"]], dtype=np.float64)
+    return None
+
+
 class Reference:
     """Per-iteration digests of the uninterrupted run (no checkpointing)."""
 
-    def __init__(self, events):
+    def __init__(self, events, rtol: float = 0.0):
         self.values, self.gain, self.hist, self.policy, self.hidx = {}, {}, {}, {}, {}
+        self.arrays = {}
+        self.harrays = {}
+        self.rtol = rtol
+        self.rounded = 0
         self.conv = None
         self.final_policy = {}
         for ev in events:
@@ -86,11 +98,17 @@ class Reference:
             n = st.get("iteration")
             if ev["event"] in ("x_new", "sweep"):
                 self.values.setdefault(n, sha_of(st.get("values")))
+                arr = array_of(st.get("values"))
+                if arr is not None:
+                    self.arrays.setdefault(n, arr)
                 if "gain" in st:
                     self.gain.setdefault(n, scalar_sha(st.get("gain")))
                 if "value_history" in st:
                     self.hist.setdefault(n, sha_of(st.get("value_history")))
                     self.hidx.setdefault(n, st.get("history_index"))
+                    harr = array_of(st.get("value_history"))
+                    if harr is not None:
+                        self.harrays.setdefault(n, harr)
                 if ev["event"] == "sweep" and st.get("policy") is not None:
                     self.policy[n] = sha_of(st.get("policy"))
             if ev["event"] == "converged" and self.conv is None:
@@ -114,6 +132,14 @@ class Reference:
         # several iterations may share one digest (stationary values): prefer the labelled one
         if self.values.get(n) == sha_of(st.get("values")):
             v = n
+        elif v == -1 and self.rtol > 0 and n in self.arrays:
+            # "up to floating-point rounding": same shape and within rtol of the reference iterate
+            import numpy as np
+            arr = array_of(st.get("values"))
+            if arr is not None and arr.shape == self.arrays[n].shape and np.allclose(
+                    arr, self.arrays[n], rtol=self.rtol, atol=self.rtol):
+                v = n
+                self.rounded += 1
         g = -3
         if "gain" in st:
             g = n if self.gain.get(n) == scalar_sha(st.get("gain")) else self.tag(self.gain, scalar_sha(st.get("gain")))
@@ -121,6 +147,12 @@ class Reference:
         if "value_history" in st:
             d = sha_of(st.get("value_history"))
             h = n if self.hist.get(n) == d else self.tag(self.hist, d)
+            if h == -1 and self.rtol > 0 and n in self.harrays:
+                import numpy as np
+                harr = array_of(st.get("value_history"))
+                if harr is not None and harr.shape == self.harrays[n].shape and np.allclose(
+                        harr, self.harrays[n], rtol=self.rtol, atol=self.rtol):
+                    h = n
             hok = self.hidx.get(n) == st.get("history_index") if n in self.hidx else True
         pol = sha_of(st.get("policy"))
         p = n if (pol is not None and self.policy.get(n) == pol) else self.tag(self.policy, pol)
